@@ -14,6 +14,12 @@ for h in $(grep -o 'build_mc [a-z_0-9]*' check | awk '{print $2}' | sort -u); do
   echo "build $h"
   go build -overlay "$S/ins/overlay.json" -o "$S/h" "./harness/$h"
 done
+# the statement-granularity build of the composed harness (parts of C06, C12, C19)
+M=github.com/relex/slog-agent
+eval "$(grep '^FINE_PKGS=' check)"
+bin/instr -out "$S/insf" -fine "$FINE_PKGS" -extra "/repo/output/fluentdforward/zz_verif_export.go=$PWD/hooks/fluentdforward_limits_export.go,/repo/base/bconfig/zz_verif_export.go=$PWD/hooks/bconfig_export.go" > /dev/null
+echo "build agentmc (statement granularity)"
+go build -overlay "$S/insf/overlay.json" -o "$S/h" ./harness/agentmc
 for h in $(grep -o 'build_seq [a-z_0-9]*' check | awk '{print $2}' | sort -u); do
   go build -o "$S/h" "./harness/$h" 2>/dev/null || true   # some need a per-harness overlay; ./check builds them
 done
